@@ -427,6 +427,6 @@ LAWS = [
              'growth of gc-tracked objects, of live traceback/frame objects < N/2, of allocated memory blocks (sys.getallocatedblocks; debug off only) < N, growth of the bytes reachable from the parser and the hotxlfp/ply modules < 4N, each in the smaller of two consecutive windows of N, traceback chains of the nine shared error objects do not grow'),
 ]
 
-LEVEL_TEXT = 'Hypothesis exploration of evaluation histories (model: a fresh parser with the same bindings), of host-list integrity by value and by object identity, and of object retention over repeated evaluations, for both debug settings.'
+LEVEL_TEXT = 'Hypothesis exploration of evaluation histories (model: a fresh parser with the same bindings, plus fixed facts), of evaluation order across brand-new interpreter processes (reaches module-level state that an in-process oracle would share), of host-list integrity by value and by object identity, and of object retention over repeated evaluations, for both debug settings.'
 LEVEL_NOTE = 'Trusted: gc object counts and sys.getallocatedblocks as the retention measures (a leak smaller than one block per two evaluations, or one that reuses a growing buffer without new blocks, is not visible); host callbacks in the harness are pure.'
-TECHNIQUE = 'stateful property testing of call histories against a fresh-instance oracle + identity/deep-equality invariants + gc-growth measurement'
+TECHNIQUE = 'stateful property testing of call histories against a fresh-instance oracle + order-permutation metamorphic test in fresh interpreters + identity/deep-equality invariants + gc-growth measurement'
